@@ -17,7 +17,7 @@ THEOREMS = {
             "Lemmas.Rev.step_up", "Lemmas.Rev.step_down", "Lemmas.Rev.mem_unmergeTo", "Lemmas.Rev.mem_mergeFrom", "C03.rows_history", "C03.rowsOk_sound", "C03.traceOk_sound"],
     "C05": ["C05.single", "C05.single_gen", "C05.several", "C05.base", "C05.stamp_one", "C05.stamp_several", "C05.stamp_heads", "C05.stamp_heads_history",
             "C05.stamp_base", "C05.stampRevs_ids", "C05.stampOk_sound", "C05.lineage_history", "C05.stamp_fold", "C05.sharesLineage_iff",
-            "Lemmas.Rev.fold_ok", "Lemmas.Rev.loaded_of_load"],
+            "Lemmas.Rev.fold_ok", "Lemmas.Rev.loaded_of_load", "C05.stamp_branch_head", "C05.getRevisions_branch_head", "C05.resolveShares_branch_head"],
     "C15": ["C15.cyclic_rejected", "C15.detect_rejects_cycle", "C15.acyclic_accepted", "C15.acyclic_loads",
             "C15.acyclic_no_cycle", "C15.heads_bases", "C15.heads_bases_history", "C15.closure_total", "C15.hasCycle_sound", "C15.hasCycle_complete", "C15.hasCycle_iff", "C15.no_cycle_acyclic", "C15.no_cycle_accepted",
             "Lemmas.Rev.peel_of_ranked", "Lemmas.Rev.peel_keeps_cycle", "Lemmas.Rev.ranked_of_peel",
@@ -28,7 +28,7 @@ THEOREMS = {
 }
 PARTIAL = {
     "C05": {
-        "label@head / partial ids / relative targets / --purge": "C05.stamp_one, stamp_several, stamp_heads and stamp_base are end-to-end theorems about command.stamp (target resolution, the loop of _stamp_revs, the version-table statements) for targets written as full revision ids, 'heads' and 'base'; targets written as branch labels, partial ids or label@head resolve through the same code but are tied by correspondence and judged by the Lean oracle Spec.Rev.stampOk on the implementation's rows; --purge (DELETE of every row first) is compared only",
+        "label@head / partial ids / relative targets / --purge": "C05.stamp_one, stamp_several, stamp_heads and stamp_base are end-to-end theorems about command.stamp (target resolution, the loop of _stamp_revs, the version-table statements) for targets written as full revision ids, 'heads', 'base' and - C05.stamp_branch_head - `<label or id>@head` with a single head on the branch (ends exactly where `stamp <that head>` ends, although the first filter also picks up rows related only to the revision carrying the label: the repaired F15); targets written as bare branch labels, partial ids or label@heads resolve through the same code but are tied by correspondence and judged by the Lean oracle Spec.Rev.stampOk on the implementation's rows; --purge (DELETE of every row first) is compared only",
         "several destinations that share a lineage": "C05.several assumes the destinations are pairwise outside each other's lineage (as heads are); for related destinations the result is not an antichain and the real code's answer is compared with the model only (the 'nonsensical multi-rev stamp' cases of the existing tests)",
     },
     "C16": {
